@@ -570,3 +570,72 @@ def stmts_after(func_node, target_stmt: ast.stmt) -> typing.List[ast.stmt]:
 
     search(func_node.body)
     return res
+
+
+# ---------------------------------------------------------------------------
+# path enumeration for small loop-free functions
+# ---------------------------------------------------------------------------
+class Path:
+    __slots__ = ("conds", "stmts", "outcome")
+
+    def __init__(self, conds=(), stmts=(), outcome="fall"):
+        self.conds = tuple(conds)  # (expr text, polarity) incl. ("except <Type>", True) for handler entry
+        self.stmts = tuple(stmts)  # simple statements executed, in order
+        self.outcome = outcome  # 'fall' | 'return' | 'raise'
+
+    def terms(self):
+        out = []
+        for e, p in self.conds:
+            if isinstance(e, str):
+                out.append((e, p))
+            else:
+                out.extend(guard_terms([(e, p)]))
+        return out
+
+
+def enumerate_paths(body: typing.List[ast.stmt], limit: int = 512) -> typing.List[Path]:
+    """All control-flow paths through a loop-free statement list (if/else, try/except, with).  Loops are treated as
+    executing their body zero or one time.  Raises ValueError beyond `limit` paths."""
+
+    def run(stmts, prefix: typing.List[Path]) -> typing.List[Path]:
+        cur = prefix
+        for st in stmts:
+            live = [p for p in cur if p.outcome == "fall"]
+            done = [p for p in cur if p.outcome != "fall"]
+            if not live:
+                return done
+            nxt: typing.List[Path] = []
+            if isinstance(st, ast.If):
+                for p in live:
+                    a = run(st.body, [Path(p.conds + ((st.test, True),), p.stmts + (st,), "fall")])
+                    b = run(st.orelse, [Path(p.conds + ((st.test, False),), p.stmts + (st,), "fall")])
+                    nxt.extend(a + b)
+            elif isinstance(st, ast.Try):
+                for p in live:
+                    ok = run(st.body + st.orelse, [Path(p.conds, p.stmts, "fall")])
+                    res = list(ok)
+                    for h in st.handlers:
+                        hname = "except " + (ast.unparse(h.type) if h.type is not None else "BaseException")
+                        res.extend(run(h.body, [Path(p.conds + ((hname, True),), p.stmts, "fall")]))
+                    if st.finalbody:
+                        res = [q for r in res for q in (run(st.finalbody, [Path(r.conds, r.stmts, "fall")]) if r.outcome == "fall" else [r])]
+                    nxt.extend(res)
+            elif isinstance(st, (ast.With, ast.AsyncWith)):
+                for p in live:
+                    nxt.extend(run(st.body, [Path(p.conds, p.stmts + (st,), "fall")]))
+            elif isinstance(st, (ast.For, ast.AsyncFor, ast.While)):
+                for p in live:
+                    nxt.append(Path(p.conds, p.stmts + (st,), "fall"))
+                    nxt.extend(run(st.body, [Path(p.conds, p.stmts + (st,), "fall")]))
+            elif isinstance(st, ast.Return):
+                nxt.extend(Path(p.conds, p.stmts + (st,), "return") for p in live)
+            elif isinstance(st, ast.Raise):
+                nxt.extend(Path(p.conds, p.stmts + (st,), "raise") for p in live)
+            else:
+                nxt.extend(Path(p.conds, p.stmts + (st,), "fall") for p in live)
+            cur = done + nxt
+            if len(cur) > limit:
+                raise ValueError("too many paths")
+        return cur
+
+    return run(body, [Path()])
